@@ -1,7 +1,7 @@
 (** C12 - Collection built-ins obey the invariants and equations the manual states.
     Model: Val/Val.v [sort_by] (stable insertion sort = the contract of Rust's stable sorts), Std/Natives.v. *)
 From Coq Require Import List ZArith Sorting.Permutation Sorting.Sorted.
-From JaqV Require Import Base.Stream Val.Num Val.Val Std.Natives Proofs.SortLaws Proofs.ValOrder Proofs.GroupLaws Proofs.SearchLaws Val.Index Val.Err Base.Bytes.
+From JaqV Require Import Base.Stream Val.Num Val.Val Std.Natives Proofs.SortLaws Proofs.ValOrder Proofs.GroupLaws Proofs.SearchLaws Proofs.SearchText Val.Index Val.Err Base.Bytes.
 Import ListNotations.
 
 Lemma insert_by_perm {A} (c : A -> A -> comparison) a l : Permutation (a :: l) (insert_by c a l).
@@ -104,3 +104,12 @@ Theorem indices_of_an_element : forall a y, (forall l, y <> Arr l) ->
      (filter (fun k => match nth_error a k with Some e => val_eqb e y | None => false end) (seq 0 (length a)))))).
 Proof. exact SearchLaws.indices_element. Qed.
 Print Assumptions indices_of_an_element.
+
+(** `indices` on text strings counts characters (Proofs/SearchText.v): the k-th character position - k counts the entries of
+    [char_starts], the byte offsets that `.[k:]` uses (C10, C13) - is listed exactly when the needle's bytes stand at that offset;
+    increasing, each once, overlapping occurrences included, whatever bytes (invalid UTF-8 too) the strings hold *)
+Theorem indices_of_text_count_characters : forall x y, y <> [] ->
+  indices (TStr x) (TStr y)
+  = Ok (Arr (map vint (map Z.of_nat (filter (fun k => SearchText.hit x y (nth k (char_starts x) 0%Z)) (seq 0 (length (char_starts x))))))).
+Proof. exact SearchText.indices_text. Qed.
+Print Assumptions indices_of_text_count_characters.
